@@ -222,6 +222,18 @@ func init() {
 	add(&sub{Name: "L1x", Posted: pki.DERs(lx, i1, ax), Path: []*pki.Cert{lx, i1, ax, rootB}})
 	px := pre("p1x", i1)
 	add(&sub{Name: "P1x", Pre: true, Posted: pki.DERs(px, i1, ax), Path: []*pki.Cert{px, i1, ax, rootB}})
+	// a certificate and a precertificate longer than 64 KiB (an extension of 70000 bytes): sizes are not layouts
+	bigExt := make([]byte, 70000)
+	for i := range bigExt {
+		bigExt[i] = byte(i*11 + 3)
+	}
+	akiI1 := i1.T.Key.KeyHash()
+	lbig := det(pki.NewLeaf("lbig", lk, i1, pki.LeafOpts{Exts: []pki.Ext{pki.ExtSAN("lbig.example"), pki.ExtUnknown(21, false, bigExt)}}))
+	pbig := det(pki.NewLeaf("pbig", lk, i1, pki.LeafOpts{Exts: []pki.Ext{pki.ExtSAN("pbig.example"), pki.ExtAKI(akiI1[:20]), pki.ExtPoison(), pki.ExtUnknown(21, false, bigExt)}}))
+	p = path(lbig)
+	add(&sub{Name: "LBig", Posted: post(p, 2), Path: p})
+	p = path(pbig)
+	add(&sub{Name: "PBig", Pre: true, Posted: post(p, 2), Path: p})
 	for i, s := range subs {
 		if s.Path == nil {
 			continue
